@@ -30,12 +30,22 @@ UNIT = {
                 'extends(' + LOG1 + ', ' + LOG0 + ')',
                 'r is Break ==> ' + LOG1 + '.len() > ' + LOG0 + '.len() && ' + LOG1 + '.last() == r && quiet(' + LOG1 + ', ' + LOG0 + '.len() as int, ' + LOG1 + '.len() - 1)',
                 'r is Continue ==> quiet(' + LOG1 + ', ' + LOG0 + '.len() as int, ' + LOG1 + '.len() as int) && ' + LOG1 + '.len() > ' + LOG0 + '.len() && ' + LOG1 + '.last() == r',
+                # the status of the last command run in the body is recorded whenever the body has run - however it ended
+                'body_status_recorded(final(self).exit_status, *old(self).env, old(self).exit_status, *final(self).env)',
+                'final(self).env.verif_bodies@ >= old(self).env.verif_bodies@',
+                'final(self).env.verif_last_is_body@ ==> final(self).env.verif_bodies@ > old(self).env.verif_bodies@ && final(self).env.exit_status == final(self).env.verif_last_body@',
+                'final(self).env.verif_bodies@ == old(self).env.verif_bodies@ ==> final(self).env.verif_last_body@ == old(self).env.verif_last_body@',
             ],
             loops={0: {'invariant': [
                 'self.env.verif_log@.len() >= ' + LOG0 + '.len()',
                 'extends(self.env.verif_log@, ' + LOG0 + ')',
                 'quiet(self.env.verif_log@, ' + LOG0 + '.len() as int, self.env.verif_log@.len() as int)',
+                'body_status_recorded(self.exit_status, *old(self).env, old(self).exit_status, *self.env)', 'self.env.verif_bodies@ >= old(self).env.verif_bodies@',
+                'self.env.verif_bodies@ == old(self).env.verif_bodies@ ==> self.env.verif_last_body@ == old(self).env.verif_last_body@',
             ], 'ensures': [
+                'self.env.verif_bodies@ == old(self).env.verif_bodies@ ==> self.env.verif_last_body@ == old(self).env.verif_last_body@',
+                'body_status_recorded(self.exit_status, *old(self).env, old(self).exit_status, *self.env)', 'self.env.verif_bodies@ >= old(self).env.verif_bodies@',
+                '!self.env.verif_last_is_body@',
                 'self.env.verif_log@.len() > ' + LOG0 + '.len()',
                 'extends(self.env.verif_log@, ' + LOG0 + ')',
                 'quiet(self.env.verif_log@, ' + LOG0 + '.len() as int, self.env.verif_log@.len() as int)',
@@ -50,11 +60,17 @@ UNIT = {
                 LOG1 + '.last() != ControlFlow::<Divert, ()>::Break(Divert::Continue { count: 0 })',
                 # everything before that was "went on normally" or a continue of this very loop (which starts the next round)
                 'quiet_or_continue(' + LOG1 + ', ' + LOG0 + '.len() as int, ' + LOG1 + '.len() - 1)',
+                # C02: "a compound command's status is that of the last command it ran (zero if none)": when the loop ends
+                # normally its status is the one the last execution of its body left, however that execution ended (not
+                # constrained when a `break` in the CONDITION ended the loop)
+                'r is Continue && !(!final(self).env.verif_last_is_body@ && ' + LOG1 + '.last() is Break) ==> body_status_recorded(final(self).exit_status, *old(self).env, old(self).exit_status, *final(self).env)',
             ],
             loops={0: {'invariant': [
                 'self.env.verif_log@.len() >= ' + LOG0 + '.len()',
                 'extends(self.env.verif_log@, ' + LOG0 + ')',
                 'quiet_or_continue(self.env.verif_log@, ' + LOG0 + '.len() as int, self.env.verif_log@.len() as int)',
+                'body_status_recorded(self.exit_status, *old(self).env, old(self).exit_status, *self.env)', 'self.env.verif_bodies@ >= old(self).env.verif_bodies@',
+                'self.env.verif_bodies@ == old(self).env.verif_bodies@ ==> self.env.verif_last_body@ == old(self).env.verif_last_body@',
             ]}})),
         ('@raw', '}\n'),
         ('@raw', '}\n'),
